@@ -541,4 +541,6 @@ def rule_sized_exact(ctx):
               "no reserve is held back, so n bytes of input fill n bytes of output", loc=body_loc(prog.find("BodyWriter::write") or wr), detail=sorted(set(bad))[:4])
 
 
-RULES = [rule_wrapper, rule_constants, rule_formula, rule_writer_schema, rule_sized_exact]
+from .rules_wrappers import rules_for as _rules_for
+_fw_C18 = _rules_for("C18")
+RULES = [rule_wrapper, rule_constants, rule_formula, rule_writer_schema, rule_sized_exact, _fw_C18]
